@@ -54,9 +54,25 @@ def decorator_effect(prog, deco_qual) -> DecoratorEffect:
     sig_vars = {}  # local var -> 'raw-class' (holds inspect.signature(raw_cls) taken before the replacement)
     replaced = False
     for st in target.body:
-        for n in ast.walk(st):
-            if isinstance(n, FuncTypes):
-                pass
+        if isinstance(st, ast.If):
+            # the only accepted guard around publishing the signature: `if <signature variable> is not None:`
+            t = st.test
+            if isinstance(t, ast.Constant) and not t.value:
+                continue  # statically dead block: nothing in it is published
+            guard_ok = (
+                isinstance(t, ast.Compare)
+                and len(t.ops) == 1
+                and isinstance(t.ops[0], ast.IsNot)
+                and isinstance(t.left, ast.Name)
+                and isinstance(t.comparators[0], ast.Constant)
+                and t.comparators[0].value is None
+            )
+            if not guard_ok and any(isinstance(x, ast.Attribute) and x.attr in ("__signature__", "__wrapped__") for x in ast.walk(st)):
+                for x in ast.walk(st):
+                    if isinstance(x, ast.Assign) and isinstance(x.targets[0], ast.Attribute) and x.targets[0].attr in ("__signature__", "__wrapped__") and isinstance(x.targets[0].value, ast.Name):
+                        eff.signature[x.targets[0].value.id] = "unknown"
+                        eff.sig_node[x.targets[0].value.id] = st
+                continue
         if isinstance(st, ast.FunctionDef):
             for d in st.decorator_list:
                 # @functools.wraps(raw_cls.__init__)
@@ -72,6 +88,8 @@ def decorator_effect(prog, deco_qual) -> DecoratorEffect:
             if isinstance(n, ast.Assign):
                 val = n.value
                 for t in n.targets:
+                    if isinstance(t, ast.Attribute) and isinstance(t.value, ast.Name) and t.value.id in local_funcs and t.attr in ("__signature__", "__wrapped__") and eff.signature.get(t.value.id) == "unknown" and eff.sig_node.get(t.value.id) is st:
+                        continue
                     if isinstance(t, ast.Attribute) and isinstance(t.value, ast.Name) and t.value.id == param:
                         if isinstance(val, ast.Name) and val.id in local_funcs:
                             eff.assigned[t.attr] = local_funcs[val.id]
